@@ -15,8 +15,10 @@ EXPLANATION = ('(R18.1) for every fallible event (filesystem primitive, write/re
                'the cache-directory inserts is dominated by publish:Ok or the link-EEXIST edge, every Ok exit of the finalizer by '
                'chmod:Ok and close:Ok; (R18.3) no keep/persist/forget primitive exists, so temp files stay owned by drop guards; '
                '(R18.4) a panic that is reachable only below the Err outcome of a fallible event exists solely for the documented '
-               'failed-flush case; unwrap/expect call sites on io::Result are inventoried. Behaviour per errno at run time is not decided.')
-FLOORS = {'R18.1': 100, 'R18.2': 3, 'R18.3': 1, 'R18.4': 3}
+               'failed-flush case; unwrap/expect call sites on io::Result are inventoried; (R18.5) every Ok exit of the publish functions '
+               'and cache-directory inserts is dominated by the removal of the source name (= R11.1), so a reported success leaves no '
+               'staged file behind. Behaviour per errno at run time is not decided.')
+FLOORS = {'R18.1': 100, 'R18.2': 3, 'R18.3': 1, 'R18.4': 3, 'R18.5': 4}
 FIXTURE_RULES = ['R18.3']
 
 # enumerated best-effort sites: (entry regex, site regex, which escape kind is tolerated, reason)
@@ -204,9 +206,15 @@ def r18_4(ctx):
     return out
 
 
+def r18_5(ctx):
+    """success means the source was consumed (nothing the caller staged is left behind): shared with R11.1."""
+    from rules import c11
+    return [inst('R18.5', i['key'].split('|', 1)[1], i['ok'], i['detail'], path=i.get('path') or []) for i in c11.r11_1(ctx)]
+
+
 def run(ctx):
     from runner import collect
-    return collect(ctx, r18_1, r18_2, r18_3, r18_4)
+    return collect(ctx, r18_1, r18_2, r18_3, r18_4, r18_5)
 
 
 def run_fixture(fctx):
